@@ -6,7 +6,7 @@ C09: the writer STATE MACHINE over a short-writing sink.
 -/
 
 namespace ZipVerif.Model
-open ZipVerif ZipVerif.Model.Layers
+open ZipVerif ZipVerif.Model.Layers ZipVerif.Props.C12
 
 /-! ### The generic writer instantiated at `M` IS the model's writer -/
 
@@ -880,4 +880,159 @@ theorem simS_startFileAligned {acc : Bytes → Nat} (ha : AccOk acc) (ext : WExt
 
 end GW
 
+/-! ### Whole call sequences -/
+
+namespace GW
+variable {m : Type → Type} [WriterIO m]
+
+def mapStepG {α β} (f : α → β) (st : StepG m α) : StepG m β := fun s => do
+  let (r, s') ← st s
+  pure (r.map f, s')
+
+/-- Dispatch of one call (`Props.C12.step`), generically; `acc`: the encoder's accept counts. -/
+def step (acc : Bytes → Nat) (ext : WExt) : Call → StepG m (Option Nat)
+  | .startFile n o => mapStepG (fun _ => none) (startFile ext n o)
+  | .startFileWithExtraData n o => mapStepG some (startFileWithExtraData ext n o)
+  | .startFileAligned n o a => mapStepG some (startFileAligned acc ext n o a)
+  | .write b => mapStepG (fun _ => none) (writeData acc b)
+  | .endLocalStartCentral => mapStepG some (endLocalStartCentral ext)
+  | .endExtraData => mapStepG some (endExtraData ext)
+  | .addDirectory n o => mapStepG (fun _ => none) (addDirectory ext n o)
+  | .addSymlink n t o => mapStepG (fun _ => none) (addSymlink acc ext n t o)
+  | .setComment c => fun s => pure (.ok none, { s with comment := c })
+  | .rawCopy src raw n => mapStepG (fun _ => none) (rawCopy acc ext src raw n)
+  | .finish => mapStepG (fun _ => none) (finish ext)
+  | .drop => mapStepG (fun _ => none) (dropWriter ext)
+
+theorem mapStepG_M {α β} (f : α → β) (st : StepG M α) : mapStepG f st = mapStep f st := rfl
+
+/-- **`GW.step` at `M` with a whole-accepting encoder is the model's `step`** (`Props/C12`). -/
+theorem step_M (ext : WExt) (c : Call) (s : WState) :
+    (GW.step (fun x => x.length) ext c s : M _) = Props.C12.step ext c s := by
+  cases c <;> simp only [GW.step, Props.C12.step, mapStepG, mapStep, startFile_M, startFileWithExtraData_M,
+    startFileAligned_M, writeData_M, endLocalStartCentral_M, endExtraData_M, addDirectory_M, addSymlink_M,
+    rawCopy_M, finish_M, dropWriter_M]
+
+theorem simS_map {α β} (f : α → β) {x : M (Except ZErr α × WState)} {y : MS (Except ZErr α × WState)}
+    (h : SimS x y) :
+    SimS (x >>= fun p => match p with | (r, s') => pure (r.map f, s'))
+      (y >>= fun p => match p with | (r, s') => pure (r.map f, s')) :=
+  SimS.tail h (fun _ _ => rfl) (fun _ _ => rfl) (fun _ _ => SimS.of_sim (Sim.pure _))
+
+theorem simS_step {acc : Bytes → Nat} (ha : AccOk acc) (ext : WExt) (c : Call) (s : WState) :
+    SimS (GW.step (fun x => x.length) ext c s : M _) (GW.step acc ext c s : MS _) := by
+  cases c with
+  | startFile n o => exact simS_map _ (SimS.of_sim (sim_startFile _ _ _ _))
+  | startFileWithExtraData n o => exact simS_map _ (SimS.of_sim (sim_startFileWithExtraData _ _ _ _))
+  | startFileAligned n o a => exact simS_map _ (simS_startFileAligned ha _ _ _ _ _)
+  | write b => exact simS_map _ (simS_writeData' ha _ _)
+  | endLocalStartCentral => exact simS_map _ (SimS.of_sim (sim_endLocalStartCentral _ _))
+  | endExtraData => exact simS_map _ (SimS.of_sim (sim_endExtraData _ _))
+  | addDirectory n o => exact simS_map _ (SimS.of_sim (sim_addDirectory _ _ _ _))
+  | addSymlink n t o => exact simS_map _ (simS_addSymlink ha _ _ _ _ _)
+  | setComment c => exact SimS.of_sim (Sim.pure _)
+  | rawCopy src raw n => exact simS_map _ (simS_rawCopy ha _ _ _ _ _)
+  | finish => exact simS_map _ (SimS.of_sim (sim_finish _ _))
+  | drop => exact simS_map _ (SimS.of_sim (sim_dropWriter _ _))
+
+/-- `Props.C12.runCalls` over the short-writing device: per-call outcomes, final writer state, final
+device.  A panic ends the run. -/
+def runCallsS (acc : Bytes → Nat) (ext : WExt) :
+    List Call → WState → (Nat → Nat) → Dev → List (Out (Option Nat)) × WState × Dev
+  | [], s, _, d => ([], s, d)
+  | c :: cs, s, sch, d =>
+    match (GW.step acc ext c s : MS _) sch d with
+    | (.ok (.ok v, s'), d') =>
+      let r := runCallsS acc ext cs s' sch d'
+      (.ok v :: r.1, r.2)
+    | (.ok (.error e, s'), d') =>
+      let r := runCallsS acc ext cs s' sch d'
+      (.err e :: r.1, r.2)
+    | (.err e, d') =>
+      let r := runCallsS acc ext cs s sch d'
+      (.err e :: r.1, r.2)
+    | (.panic site, d') => ([.panic site], s, d')
+
+/-- Somewhere in the call list both runs - identical until then: same outcomes, same writer state, same
+sink bytes and position - refused a call for the 4 GiB limit (`Err(Other)`, writer closed). -/
+def RefusedAt (acc : Bytes → Nat) (ext : WExt) (sch : Nat → Nat) : List Call → WState → Dev → Dev → Prop
+  | [], _, _, _ => False
+  | c :: cs, s, d, sd =>
+    (∃ r r' d' sd', Props.C12.step ext c s none d = (.ok r, d') ∧
+        (GW.step acc ext c s : MS _) sch sd = (.ok r', sd') ∧ Refusal r r') ∨
+    (∃ v s' d' sd', Props.C12.step ext c s none d = (.ok (v, s'), d') ∧
+        (GW.step acc ext c s : MS _) sch sd = (.ok (v, s'), sd') ∧ SameView d' sd' ∧
+        RefusedAt acc ext sch cs s' d' sd') ∨
+    (∃ e d' sd', Props.C12.step ext c s none d = (.err e, d') ∧
+        (GW.step acc ext c s : MS _) sch sd = (.err e, sd') ∧ SameView d' sd' ∧
+        RefusedAt acc ext sch cs s d' sd')
+
+theorem run_sim {acc : Bytes → Nat} (ha : AccOk acc) (ext : WExt) (sch : Nat → Nat) :
+    ∀ (calls : List Call) (s : WState) (d sd : Dev), SameView d sd →
+      ((runCalls ext calls s none d).1 = (runCallsS acc ext calls s sch sd).1 ∧
+        (runCalls ext calls s none d).2.1 = (runCallsS acc ext calls s sch sd).2.1 ∧
+        SameView (runCalls ext calls s none d).2.2 (runCallsS acc ext calls s sch sd).2.2) ∨
+      RefusedAt acc ext sch calls s d sd ∨
+      ((runCalls ext calls s none d).1 = (runCallsS acc ext calls s sch sd).1 ∧
+        ∃ site, Out.panic site ∈ (runCalls ext calls s none d).1) := by
+  intro calls
+  induction calls with
+  | nil => intro s d sd hv; exact Or.inl ⟨rfl, rfl, hv⟩
+  | cons c cs ih =>
+    intro s d sd hv
+    have hs := simS_step ha ext c s sch d sd hv
+    rw [step_M] at hs
+    rcases hs with ⟨o, d1, sd1, e1, e2, hv1⟩ | ⟨r, r', d1, sd1, e1, e2, hR⟩ | ⟨site, d1, sd1, e1, e2⟩
+    · cases o with
+      | ok p =>
+        rcases p with ⟨r, s'⟩
+        cases r with
+        | ok v =>
+          simp only [runCalls, runCallsS, e1, e2]
+          rcases ih s' d1 sd1 hv1 with ⟨h1, h2, h3⟩ | h | ⟨h1, site, h2⟩
+          · exact Or.inl ⟨by rw [h1], h2, h3⟩
+          · exact Or.inr (Or.inl (Or.inr (Or.inl ⟨_, s', d1, sd1, e1, e2, hv1, h⟩)))
+          · exact Or.inr (Or.inr ⟨by rw [h1], site, List.mem_cons_of_mem _ h2⟩)
+        | error e =>
+          simp only [runCalls, runCallsS, e1, e2]
+          rcases ih s' d1 sd1 hv1 with ⟨h1, h2, h3⟩ | h | ⟨h1, site, h2⟩
+          · exact Or.inl ⟨by rw [h1], h2, h3⟩
+          · exact Or.inr (Or.inl (Or.inr (Or.inl ⟨_, s', d1, sd1, e1, e2, hv1, h⟩)))
+          · exact Or.inr (Or.inr ⟨by rw [h1], site, List.mem_cons_of_mem _ h2⟩)
+      | err e =>
+        simp only [runCalls, runCallsS, e1, e2]
+        rcases ih s d1 sd1 hv1 with ⟨h1, h2, h3⟩ | h | ⟨h1, site, h2⟩
+        · exact Or.inl ⟨by rw [h1], h2, h3⟩
+        · exact Or.inr (Or.inl (Or.inr (Or.inr ⟨e, d1, sd1, e1, e2, hv1, h⟩)))
+        · exact Or.inr (Or.inr ⟨by rw [h1], site, List.mem_cons_of_mem _ h2⟩)
+      | panic site =>
+        simp only [runCalls, runCallsS, e1, e2]
+        exact Or.inl ⟨trivial, trivial, hv1⟩
+    · exact Or.inr (Or.inl (Or.inl ⟨r, r', d1, sd1, e1, e2, hR⟩))
+    · refine Or.inr (Or.inr ?_)
+      simp only [runCalls, runCallsS, e1, e2]
+      exact ⟨trivial, site, by simp⟩
+
+
+/-- A refusal shows in the whole-write run as an `Err(io::ErrorKind::Other)` outcome. -/
+theorem refusedAt_mem {acc : Bytes → Nat} {ext : WExt} {sch : Nat → Nat} :
+    ∀ (calls : List Call) (s : WState) (d sd : Dev), RefusedAt acc ext sch calls s d sd →
+      Out.err (.io .other) ∈ (runCalls ext calls s none d).1 := by
+  intro calls
+  induction calls with
+  | nil => intro s d sd h; exact h.elim
+  | cons c cs ih =>
+    intro s d sd h
+    rcases h with ⟨r, r', d', sd', e1, _, hR⟩ | ⟨v, s', d', sd', e1, _, _, h⟩ | ⟨e, d', sd', e1, _, _, h⟩
+    · rcases r with ⟨r, s'⟩
+      have : r = .error (.io .other) := hR.1
+      subst this
+      simp only [runCalls, e1]
+      exact List.mem_cons_self
+    · cases v with
+      | ok v => simp only [runCalls, e1]; exact List.mem_cons_of_mem _ (ih _ _ _ h)
+      | error e => simp only [runCalls, e1]; exact List.mem_cons_of_mem _ (ih _ _ _ h)
+    · simp only [runCalls, e1]; exact List.mem_cons_of_mem _ (ih _ _ _ h)
+
+end GW
 end ZipVerif.Model
